@@ -346,7 +346,7 @@ class DescriptorSpec(Spec):
 # ----------------------------------------------------------------------------------------------------- module API
 def configs(tier):
     if tier == "quick":
-        return [dict(dut="decoder", lengths=[0, 4, 8, 12], ids=["A", "N"], delays=[1, 2], name="decoder"),
+        return [dict(dut="decoder", lengths=[0, 4, 5, 7, 8, 9, 12], ids=["A", "N"], delays=[1, 2], name="decoder"),
                 dict(dut="descriptor", collection="lengths", name="descriptor-lengths"),
                 dict(dut="descriptor", collection="realistic", name="descriptor-realistic")]
     return [dict(dut="decoder", lengths=[0, 1, 3, 4, 5, 7, 8, 9, 12, 16], ids=["A", "N", "B", "C"], delays=[1, 2, 3], name="decoder"),
